@@ -25,6 +25,23 @@ pub open spec fn node_ok(starts: Seq<u16>, edges: Seq<u16>, i: int) -> bool {
     match node_edges_spec(starts, edges, i) { Some(es) => forall|k: int| 0 <= k < es.len() ==> (#[trigger] es[k] as int) < starts.len(), None => false } }
 pub open spec fn graph_ok(starts: Seq<u16>, edges: Seq<u16>) -> bool { forall|i: int| 0 <= i < starts.len() ==> #[trigger] node_ok(starts, edges, i) }
 
+// ---- parent lists (C01): the parents of node n in ascending order, one entry per edge (multiplicity kept).
+// plist(n, i, k) = entries contributed by all edges of the nodes below i and by the first k edges of node i, in that order.
+pub open spec fn plist(starts: Seq<u16>, edges: Seq<u16>, n: u16, i: int, k: int) -> Seq<u16>
+    decreases i, k
+{
+    if i < 0 || k < 0 { Seq::<u16>::empty() }
+    else if k > 0 {
+        let prev = plist(starts, edges, n, i, k - 1);
+        match node_edges_spec(starts, edges, i) {
+            Some(es) => if k <= es.len() && es[k - 1] == n { prev.push(i as u16) } else { prev },
+            None => prev } }
+    else if i == 0 { Seq::<u16>::empty() }
+    else { match node_edges_spec(starts, edges, i - 1) {
+        Some(es) => plist(starts, edges, n, i - 1, es.len() as int),
+        None => plist(starts, edges, n, i - 1, 0) } }
+}
+pub open spec fn parents_of(starts: Seq<u16>, edges: Seq<u16>, n: u16) -> Seq<u16> { plist(starts, edges, n, starts.len() as int, 0) }
 // ---- deferral (C01 / C03): the deferred set is exactly the descendant closure of the flagged nodes, however the nodes are numbered
 pub open spec fn child_of(starts: Seq<u16>, edges: Seq<u16>, a: u16, b: u16) -> bool {
     match node_edges_spec(starts, edges, a as int) { Some(es) => es.contains(b), None => false } }
